@@ -263,7 +263,7 @@ class Script:
     """Environment choices of one TdglRun behaviour."""
 
     def __init__(self, cfg, tdts, simdts, flog, probes=0, screening=False, progress=0, prior=None, fault_shape=0,
-                 outname="out.h5"):
+                 outname="out.h5", warn_error=False):
         self.cfg = cfg
         self.tdts = list(tdts)
         self.simdts = list(simdts)
@@ -277,15 +277,17 @@ class Script:
         self.fault_shape = fault_shape
         # the requested output path (relative to the run's working directory, or "ABS:<rel>" for an absolute path)
         self.outname = outname
+        # environment: run with every warning turned into an error (python -W error / pytest -W error)
+        self.warn_error = warn_error
 
     def key(self):
         return (tuple(sorted((k, str(v)) for k, v in self.cfg.items())), tuple(self.tdts), tuple(self.simdts),
                 tuple(tuple(sorted(f.items())) for f in self.flog), self.probes, self.screening, self.progress,
-                json.dumps(self.prior, sort_keys=True), self.fault_shape, self.outname)
+                json.dumps(self.prior, sort_keys=True), self.fault_shape, self.outname, self.warn_error)
 
     def to_json(self):
         return {"cfg": self.cfg, "tdts": self.tdts, "simdts": self.simdts, "flog": self.flog,
-                "probes": self.probes, "screening": self.screening, "progress": self.progress, "prior": self.prior, "fault_shape": self.fault_shape, "outname": self.outname}
+                "probes": self.probes, "screening": self.screening, "progress": self.progress, "prior": self.prior, "fault_shape": self.fault_shape, "outname": self.outname, "warn_error": self.warn_error}
 
 
 class _FaultyDict(dict):
@@ -540,6 +542,11 @@ def _replay(tdgl, script, base_tmp=None, sandbox=None, keep=False):
             raise _Hang()
         old_handler = signal.signal(signal.SIGALRM, _on_alarm)
         signal.alarm(int(os.environ.get("VERIF_HANG_S", "120")))
+        import warnings as _warnings
+        wctx = _warnings.catch_warnings()
+        wctx.__enter__()
+        if script.warn_error:
+            _warnings.simplefilter("error")
         try:
             solver = TDGLSolver(device, opts)
             solver.update = scripted_update
@@ -557,6 +564,7 @@ def _replay(tdgl, script, base_tmp=None, sandbox=None, keep=False):
                 # the error that reached the caller is not the one that stopped the run: "the error propagates"
                 result = "raised-other"
         finally:
+            wctx.__exit__(None, None, None)
             signal.alarm(0)
             signal.signal(signal.SIGALRM, old_handler)
             DH.__enter__, DH.__exit__, DH.save_time_step = orig_enter, orig_exit, orig_save
